@@ -184,6 +184,86 @@ def run_gen(comp, tier, seed, g=None):
     return outp, n
 
 
+def run_tour(comp, tier, seed, t=None):
+    """Transition tour (direction 1, systematic): TLC explores a small model exhaustively and prints every
+    transition; for a seeded sample of the transitions (all of them if few) a schedule is built from the
+    shortest path to the transition's source state plus the transition itself."""
+    import random
+    c = COMPONENTS[comp]
+    t = t or c.get('tour')
+    if not t:
+        return None, 0, 0
+    cfg = os.path.join(SPEC, t['cfg'])
+    mod = os.path.join(SPEC, t['module'] + '.tla')
+    files = [cfg, mod] + [os.path.join(SPEC, f) for f in c['spec_files']]
+    nmax = t['n'][tier]
+    key = '%s_%s_tour_%d_%d' % (spec_hash(files), comp, nmax, seed)
+    outp = os.path.join(WORK, 'gen_cache', key + '.ndjson')
+    meta = outp + '.meta'
+    if os.path.exists(outp) and os.path.exists(meta):
+        m = json.load(open(meta))
+        return outp, m['schedules'], m['edges']
+    os.makedirs(os.path.dirname(outp), exist_ok=True)
+    raw = os.path.join(WORK, 'tour_%s.raw' % key)
+    md = os.path.join(WORK, 'tour_' + key)
+    shutil.rmtree(md, ignore_errors=True)
+    with open(raw, 'w') as fh:
+        e = dict(os.environ)
+        e['JAVA_TOOL_OPTIONS'] = '-Xmx6g'
+        subprocess.run(['timeout', '900', 'tlc', '-workers', '4', '-metadir', md, '-cleanup', '-noGenerateSpecTE', '-config', cfg, mod],
+                       stdout=fh, stderr=subprocess.STDOUT, env=e, cwd=SPEC)
+    shutil.rmtree(md, ignore_errors=True)
+    edges = []   # (level, fkey, tkey, cfg, ev)
+    rx = re.compile(r'^<<"EDGE", (\d+), "(.*)">>$')
+    with open(raw) as fh:
+        for ln in fh:
+            m = rx.match(ln.rstrip('\n'))
+            if not m:
+                continue
+            try:
+                rec = json.loads(m.group(2).replace('\\"', '"').replace('\\\\', '\\'))
+            except Exception:
+                continue
+            edges.append((int(m.group(1)), json.dumps(rec['f'], sort_keys=True), json.dumps(rec['t'], sort_keys=True), rec.get('cfg'), rec['ev']))
+    os.remove(raw)
+    if not edges:
+        raise ToolError('transition tour produced no edges for ' + comp)
+    edges.sort(key=lambda x: x[0])
+    pred = {}      # state key -> (pred key, ev)  (first seen in level order = a shortest path)
+    root_cfg = {}
+    for lvl, fk, tk, cf, ev in edges:
+        if lvl == 1 and fk not in pred:
+            pred[fk] = None
+            root_cfg[fk] = cf
+        if tk not in pred:
+            pred[tk] = (fk, ev)
+    def path(k):
+        out = []
+        while pred.get(k) is not None:
+            k2, ev = pred[k]
+            out.append(ev)
+            k = k2
+        return list(reversed(out)), k
+    rnd = random.Random(seed)
+    idx = list(range(len(edges)))
+    if len(idx) > nmax:
+        idx = rnd.sample(idx, nmax)
+    n = 0
+    with open(outp + '.tmp', 'w') as f:
+        for i in idx:
+            lvl, fk, tk, cf, ev = edges[i]
+            if fk not in pred:
+                continue
+            evs, root = path(fk)
+            f.write(json.dumps({'e': 'reset', 'cfg': root_cfg.get(root, cf), 'seed': seed, 'src': 'tour'}) + '\n')
+            for x in evs + [ev]:
+                f.write(json.dumps(x) + '\n')
+            n += 1
+    os.replace(outp + '.tmp', outp)
+    json.dump({'schedules': n, 'edges': len(edges)}, open(meta, 'w'))
+    return outp, n, len(edges)
+
+
 def harness(args, timeout=3600):
     rc, out = sh([VH] + args, timeout=timeout)
     if rc != 0:
@@ -342,6 +422,13 @@ def run_part(prop, P, part, tier, seed, workdir, known):
         skipped = st.get('skipped', 0)
         traces.append(('gen', outp))
         log('[%s] replayed %d TLC-generated behaviours in the implementation (%d events, %d steps skipped)' % (prop, gen_n, st.get('events', 0), skipped))
+    tour_path, tour_n, tour_edges = run_tour(comp, tier, seed, part.get('tour'))
+    if tour_path:
+        outp = os.path.join(workdir, 'tr_tour.ndjson')
+        st = harness([C['harness'], 'replay', '--in', tour_path, '--finale', '--out', outp] + C.get('tour', {}).get('args', []))
+        skipped += st.get('skipped', 0)
+        traces.append(('tour', outp))
+        log('[%s] transition tour: %d of %d transitions of the small model replayed in the implementation (%d events)' % (prop, tour_n, tour_edges, st.get('events', 0)))
     for k, rnd in enumerate((part.get('random') or C['random'])[tier]):
         outp = os.path.join(workdir, 'tr_rnd%d.ndjson' % k)
         st = harness([C['harness'], 'random', '--seed', str(seed + 1000 * k), '--runs', str(rnd['runs']), '--size', rnd.get('size', tier), '--out', outp] + rnd.get('args', []))
@@ -394,7 +481,7 @@ def run_part(prop, P, part, tier, seed, workdir, known):
         if dv['rejected']:
             log('DRIFT component=%s %d runs differ from the full model (first: %s)' % (comp, len(dv['rejected']), json.dumps(dv['rejected'][0][2])[:300]))
 
-    return {'comp': comp, 'profile': profile, 'mc': mc, 'gen_n': gen_n, 'skipped': skipped, 'tot': tot, 'violations': violations,
+    return {'comp': comp, 'profile': profile, 'mc': mc, 'gen_n': gen_n, 'tour_n': tour_n, 'tour_edges': tour_edges, 'skipped': skipped, 'tot': tot, 'violations': violations,
             'known_hits': known_hits, 'samples': samples, 'selftest': selftest, 'drift': drift}
 
 
@@ -430,6 +517,8 @@ def check(prop, tier, seed, replay=None):
     results = [run_part(prop, P, part, tier, seed, workdir, known) for part in parts]
     mc = [m for r in results for m in r['mc']]
     gen_n = sum(r['gen_n'] for r in results)
+    tour_n = sum(r['tour_n'] for r in results)
+    tour_edges = sum(r['tour_edges'] for r in results)
     skipped = sum(r['skipped'] for r in results)
     tot = {k: sum(r['tot'][k] for r in results) for k in ('runs', 'accepted', 'events', 'tlc_states')}
     violations = [v for r in results for v in r['violations']]
@@ -454,7 +543,7 @@ def check(prop, tier, seed, replay=None):
             'traces_validated_against_impl': tot['accepted'],
             'samples': samples if samples else [{'note': 'no trace'}],
             'model_checking': mc,
-            'tlc_generated_behaviours_replayed': gen_n, 'schedule_steps_skipped': skipped,
+            'tlc_generated_behaviours_replayed': gen_n, 'tour_transitions_replayed': tour_n, 'tour_transitions_in_model': tour_edges, 'schedule_steps_skipped': skipped,
             'trace_runs': tot['runs'], 'trace_events': tot['events'], 'trace_validation_states': tot['tlc_states'],
             'profile': profile, 'selftest': selftest, 'drift': drift,
             'known_findings_matched': len(known_hits),
